@@ -108,6 +108,16 @@ def gen_case(r, kind):
     elif kind == "select":
         doc = G.hostile_doc(r, 3)
         x = G.guided_path(r, doc, max_len=3, miss=10, mode="typed", meaningful=True)
+    elif kind == "rule" and r.pct() < 3:
+        # membership in a list of a thousand and more allowed values that the document itself holds; the caller
+        # replaces one of them in place between the calls
+        n_ = r.choice([1000, 1024, 1500])
+        allowed = list(range(n_))
+        probe = r.choice([0, 5, n_ - 1, n_ // 2])
+        doc = {"allowed": allowed, "x": probe, "y": r.choice([n_ + 5, -1, probe])}
+        x = RuleT(PathT([Prim(r.choice(["x", "y"]))]), Leaf("value", None, r.choice(["in_", "not_in"]), kwargs={"value": PathT([Prim("allowed")])}))
+        edits = [(1, "set", probe, -7), (1, "set", r.below(n_), n_ + 5)]
+        return kind, x, doc, edits, r.coin(35)
     elif kind == "rule":
         doc = G.hostile_doc(r, 3)
         x = G.rule_for(r, doc, mode="typed", cast_p=25, cond_depth=1, max_len=3, meaningful=True)
